@@ -218,6 +218,8 @@ type World struct {
 	nextItem   int
 	submitted  []int
 	prefillN   int
+	bulkDone   bool
+	bulkOK, bulkErr int
 	prefillItems []*Item
 	inEpilogue bool
 	failedItems []int
